@@ -196,8 +196,8 @@ def run(ctx):
                 ctx.failure("res-bus-sum", f"res_bus[{b}] = ({net.res_bus.p_mw.at[b]!r}, {net.res_bus.q_mvar.at[b]!r}), sum of the element "
                                            f"results at the bus = ({p!r}, {q!r})", case)
                 break
-        # ---- correspondence (small nets only: exact rationals)
-        if dc:
+        # ---- correspondence (small nets only: exact rationals; reads the Newton-Raphson solver's internal voltage vector)
+        if dc or "algorithm" in opts:
             continue
         ppci = net._ppc["internal"]
         if not all(k2 in ppci for k2 in ("branch", "bus", "V", "Ybus")):
